@@ -629,6 +629,14 @@ def r10(ctx):
     ctx.floor("C05.R10", 1)
 
 
+def r11(ctx):
+    """the key-ordered access path of one document survives what happens to its neighbours in the shared tables: removing a
+    document erases exactly that document's rows of the records table and of the key-ordered index (= C16.R2, decided on sample
+    ids of this and the neighbouring documents)"""
+    from . import C16
+    ctx.share("C05.R11", C16.r2, "C16.R2", keep=lambda k: "records" in k, floor=2)
+
+
 def run(ctx):
     ctx.run_rule("C05.R1", r1)
     ctx.run_rule("C05.R2", r2)
@@ -640,3 +648,4 @@ def run(ctx):
     ctx.run_rule("C05.R8", r8)
     ctx.run_rule("C05.R9", r9)
     ctx.run_rule("C05.R10", r10)
+    ctx.run_rule("C05.R11", r11)
